@@ -545,7 +545,7 @@ func C16(c Ctx) *report.Report {
 			gained := after.Sub(before)
 			wantCoins := sdk.NewCoins(sdk.NewCoin(want, sdk.NewIntFromBigInt(ev.Value)))
 			d["credited"] = gained.String()
-			if !gained.IsEqual(wantCoins) {
+			if gained.String() != wantCoins.String() {
 				rep.Violate("C16/chain/credited-differs-from-event", fmt.Sprintf("the event says %s of %q (denom %s); the receiver was credited %s", ev.Value, ev.Symbol, want, gained), d)
 			}
 			if i%6 == 5 {
